@@ -8,6 +8,7 @@ import itertools
 from ..argmodel import ArgSpec, parsers_in
 from ..cfg import Node, walk_no_nested
 from ..dataflow import bind_call, fmt_origin, origins
+from ..decide import expand_expr
 from ..loader import AnalysisError, ClassInfo, ConstInfo, FuncInfo
 from ..report import Ctx
 from .common import all_guards, call_name, direct_guards, norm, where
@@ -36,6 +37,16 @@ def _tracked_flags(ctx: Ctx, fi: FuncInfo, option_fields: list[str]) -> tuple[di
             set_names.add(v.elts[1].id)
     if not set_names:
         raise AnalysisError("anchor vanished: the parser function no longer returns (options, explicit_flags, is_auto)")
+    # names the set is copied from (explicit_flags = flags_found)
+    changed = True
+    while changed:
+        changed = False
+        for n in flow.cfg.nodes:
+            if n.kind == "stmt" and isinstance(n.ast, (ast.Assign, ast.AnnAssign)) and isinstance(getattr(n.ast, "value", None), ast.Name):
+                tg = n.ast.targets[0] if isinstance(n.ast, ast.Assign) else n.ast.target
+                if isinstance(tg, ast.Name) and tg.id in set_names and n.ast.value.id not in set_names:
+                    set_names.add(n.ast.value.id)
+                    changed = True
     out: dict[str, str] = {}
     table_node: ast.AST | None = None
     adds = [(n, c) for n, c in flow.all_calls() if isinstance(c.func, ast.Attribute) and c.func.attr == "add"
@@ -59,9 +70,16 @@ def _tracked_flags(ctx: Ctx, fi: FuncInfo, option_fields: list[str]) -> tuple[di
         lit = table_expr
         if isinstance(table_expr, ast.Name):
             defs = flow.reaching(h, table_expr.id)
-            if len(defs) != 1 or defs[0].value is None:
+            if not defs:
+                # a module-level table
+                r = ctx.repo.lookup(table_expr.id, fi.module, fi)
+                if not (isinstance(r, ConstInfo) and len(r.assigns) == 1 and getattr(r.assigns[0], "value", None) is not None):
+                    raise AnalysisError(f"explicit-flag table `{table_expr.id}` is neither a local nor a module-level literal")
+                lit = r.assigns[0].value
+            elif len(defs) != 1 or defs[0].value is None:
                 raise AnalysisError("explicit-flag table is not a single local literal")
-            lit = defs[0].value
+            else:
+                lit = defs[0].value
         table_node = lit
         if isinstance(lit, ast.Dict) and isinstance(tgt, ast.Tuple) and len(tgt.elts) == 2:
             kname, vname = (e.id if isinstance(e, ast.Name) else None for e in tgt.elts)
@@ -235,7 +253,9 @@ def _same_argv(ctx: Ctx, fi: FuncInfo, a: ast.Call, b: ast.Call) -> bool:
         if not c.args:
             return {"<sys.argv>"}
         out = set()
-        for s in ast.walk(c.args[0]):
+        node = flow.node_of(c)
+        arg = expand_expr(ctx.prog, fi, c.args[0], node) if node is not None else c.args[0]  # read through `argv = args if ... else ...`
+        for s in ast.walk(arg):
             if isinstance(s, ast.Name):
                 out.add(s.id)
         return out
@@ -402,10 +422,11 @@ def _check_find_config(ctx: Ctx) -> None:
     ctx.ob("R-CONFIG-K5", f"{fi.qual} :: filename order", names == CONFIG_FILENAMES,
            f"per-directory search order must be {CONFIG_FILENAMES}, it is {names}", where(fi, name_loop))
     # the filename loop is nested inside the upward directory loop
-    whiles = [t for t in flow.cfg.nodes if t.kind == "test" and isinstance(t.owner, ast.While)]
-    nested = any(name_loop in flow.loop_body_nodes(w) for w in whiles) or any(
-        name_loop in flow.loop_body_nodes(h) for h in fors if h is not name_loop
-    )
+    # the upward walk: the loop(s) in which the search moves to `.parent`
+    moves0 = [n for n in flow.cfg.nodes if n.kind == "stmt" and isinstance(n.ast, ast.Assign) and ".parent" in ast.unparse(n.ast.value)]
+    whiles = [t for t in flow.cfg.nodes if (t.kind == "test" and isinstance(t.owner, ast.While)) or (t.kind == "for" and t is not name_loop)]
+    whiles = [w for w in whiles if any(mv in flow.loop_body_nodes(w) for mv in moves0)]
+    nested = any(name_loop in flow.loop_body_nodes(w) for w in whiles)
     inverted = any(w in flow.loop_body_nodes(name_loop) for w in whiles)
     ctx.ob("R-CONFIG-K5", f"{fi.qual} :: nearest directory first", nested and not inverted,
            "the file-name loop must run inside the upward directory walk (nearest config wins over file-name priority)", where(fi, name_loop))
@@ -429,12 +450,14 @@ def _check_find_config(ctx: Ctx) -> None:
             sect = False
             for b, lab in guards:
                 if lab == "T" and b.kind == "test":
+                    # the test's value derives from a lookup of 'flowmark' under 'tool' (in a helper or in place)
+                    consts = {s_[1] for s_ in prog.slice(fi, b.ast, b).sources if s_[0] == "const"}
                     for c in flow.calls_in(b):
                         t = prog.resolve_call(fi, c)
-                        if isinstance(t, list):
-                            consts = {s[1] for s in prog.summary(t[0], True, 0).sources if s[0] == "const"} if prog.summary(t[0], True, 0) else set()
-                            if "'flowmark'" in consts and "'tool'" in consts:
-                                sect = True
+                        if isinstance(t, list) and prog.summary(t[0], True, 0) is not None:
+                            consts |= {s_[1] for s_ in prog.summary(t[0], True, 0).sources if s_[0] == "const"}
+                    if "'flowmark'" in consts and "'tool'" in consts:
+                        sect = True
             ctx.ob("R-CONFIG-K5", f"{fi.qual} :: {norm(r.ast)} pyproject needs [tool.flowmark]", sect,
                    "a pyproject.toml may only be chosen when it has a [tool.flowmark] table", where(fi, r))
     ctx.require("R-CONFIG-K5", "successful returns of find_config_file", n_ret, 1)
